@@ -129,7 +129,7 @@ class Tr:
     # ---------------------------------------------------------------- expressions
     def dotted(self, node):
         if isinstance(node, ast.Name):
-            return node.id
+            return getattr(self, "aliases", {}).get(node.id, node.id)
         if isinstance(node, ast.Attribute):
             base = self.dotted(node.value)
             return None if base is None else base + "." + node.attr
@@ -266,6 +266,10 @@ class Tr:
             op = node.op
             if isinstance(op, ast.BitXor) and ta == BOOL and tb == BOOL:
                 return f"(xor {a} {b})", BOOL
+            if isinstance(op, ast.BitAnd) and ta == BOOL and tb == BOOL:
+                return f"({a} && {b})", BOOL
+            if isinstance(op, ast.BitOr) and ta == BOOL and tb == BOOL:
+                return f"({a} || {b})", BOOL
             if isinstance(op, (ast.Add, ast.Sub, ast.Mult)):
                 t = self.join_num(ta, tb)
                 sym = {ast.Add: "+", ast.Sub: "-", ast.Mult: "*"}[type(op)]
@@ -387,7 +391,10 @@ class Tr:
 
     def call(self, node, env):
         fname = self.dotted(node.func)
-        args = [self.expr(a, env) for a in node.args]
+        if isinstance(node.func, ast.Attribute) and node.func.attr == "astype":
+            args = []
+        else:
+            args = [self.expr(a, env) for a in node.args]
         if fname in ("np.asanyarray", "np.asarray", "list", "tuple") and len(args) == 1 and not node.keywords:
             return args[0]          # elementwise reading / tuple-as-list
         inl = self.spec.get("inline", {}).get(fname)
@@ -435,7 +442,26 @@ class Tr:
         if fname == "float" and len(args) == 1:
             e, t = args[0]
             return self.coerce(e, t, RAT), RAT
-        if fname in ("math.floor", "np.floor") and len(args) == 1:
+        if isinstance(node.func, ast.Attribute) and node.func.attr == "astype" and len(node.args) == 1 and not node.keywords \
+                and ast.unparse(node.args[0]) in ("int", "np.int32", "np.int64", "np.int_"):
+            # `.astype(<integer type>)` of an integral value (np.floor / np.round result): the integer itself;
+            # the wrap-around of a fixed-width integer type is not modelled
+            e, t = self.expr(node.func.value, env)
+            if t != INT:
+                raise TranslationError(f"astype on a non-integral value: {ast.unparse(node)}")
+            return e, INT
+        if fname in ("np.where", "da.where") and len(args) == 3 and args[0][1] == BOOL:
+            t = self.join_branch(args[1][1], args[2][1])
+            return f"(if {args[0][0]} then {self.coerce(args[1][0], args[1][1], t)} else {self.coerce(args[2][0], args[2][1], t)})", t
+        if fname in ("np.clip",) and len(args) == 3:
+            t = self.join_num(self.join_num(args[0][1], args[1][1]), args[2][1])
+            fmx, fmn = ("pyMaxI", "pyMinI") if t == INT else ("pyMaxQ", "pyMinQ")
+            v, lo, hi = (self.coerce(a, ta, t) for a, ta in args)
+            return f"({fmn} ({fmx} {v} {lo}) {hi})", t
+        if fname in ("np.round",) and len(args) == 1:
+            e, t = args[0]
+            return (e, INT) if t == INT else (f"(roundHalfEven {e})", INT)
+        if fname in ("math.floor", "np.floor", "da.floor") and len(args) == 1:
             e, t = args[0]
             return (e, INT) if t == INT else (f"(pyFloor {e})", INT)
         if fname in ("math.ceil", "np.ceil") and len(args) == 1:
@@ -590,6 +616,13 @@ class Tr:
                 return cont(env)
             if isinstance(tgt, ast.Subscript):
                 return self.subscript_store(s, tgt, env, cont)
+            rhs = self.dotted(s.value) if isinstance(s.value, (ast.Name, ast.Attribute)) else None
+            if rhs is not None and rhs not in env and any(k.startswith(rhs + ".") for k in env) and isinstance(tgt, ast.Name):
+                # `adef = self.target_area`: a second name for an object whose attributes are parameters
+                if not hasattr(self, "aliases"):
+                    self.aliases = {}
+                self.aliases[tgt.id] = rhs
+                return cont(env)
             e, t = self.expr(s.value, env)
             want = self.spec.get("var_types", {}).get(name)
             if want is not None:
@@ -828,6 +861,26 @@ def _drop(*sources):
     return sel
 
 
+def _from_stmt(src, upto=None):
+    """statements from the one given verbatim (inclusive) to the end / to the one given verbatim (exclusive)"""
+    def sel(fn):
+        d0 = ast.dump(ast.parse(src).body[0])
+        d1 = ast.dump(ast.parse(upto).body[0]) if upto else None
+        out, on = [], False
+        for st in fn.body:
+            d = ast.dump(st)
+            if d == d0:
+                on = True
+            if on and d1 is not None and d == d1:
+                return out
+            if on:
+                out.append(st)
+        if not on or d1 is not None:
+            raise TranslationError(f"statement `{src}`" + (f" … `{upto}`" if upto else "") + " not found")
+        return out
+    return sel
+
+
 def _same(stmt, ref):
     return ast.dump(stmt) == ast.dump(ast.parse(ref).body[0])
 
@@ -914,6 +967,27 @@ SPECS = [
          inline={"self._get_corner_and_scale": dict(lean="get_corner_and_scale", returns=tup(RAT, RAT, RAT, RAT),
                                                     implicit=["self.pixel_size_x", "self.pixel_size_y", "self.pixel_upper_left"])},
          owners=["C01", "C18"]),
+    # ---- cell assignment in the other modules (C18, C07) -------------------------------------------
+    dict(name="linesample", file="pyresample/grid.py", func="get_linesample", mode="fragment",
+         params=[("source_x", RAT), ("source_y", RAT), ("source_area_def.pixel_offset_x", RAT), ("source_area_def.pixel_offset_y", RAT),
+                 ("source_area_def.pixel_size_x", RAT), ("source_area_def.pixel_size_y", RAT)],
+         outputs=["source_pixel_y", "source_pixel_x"], output_types={"source_pixel_y": INT, "source_pixel_x": INT},
+         select=_assignments_to("source_pixel_x", "source_pixel_y", guards=["return (source_pixel_y, source_pixel_x)"]),
+         owners=["C18"]),
+    dict(name="gridfilter_index", file="pyresample/geo_filter.py", func="GridFilter.get_valid_index", mode="fragment",
+         params=[("x_coord", RAT), ("y_coord", RAT), ("self.area_def.pixel_offset_x", RAT), ("self.area_def.pixel_offset_y", RAT),
+                 ("self.area_def.pixel_size_x", RAT), ("self.area_def.pixel_size_y", RAT), ("self.area_def.width", INT),
+                 ("self.area_def.height", INT)],
+         outputs=["target_x", "target_y", "target_x_valid", "target_y_valid"],
+         output_types={"target_x": INT, "target_y": INT, "target_x_valid": BOOL, "target_y_valid": BOOL},
+         select=_assignments_to("target_x", "target_y", "target_x_valid", "target_y_valid"), owners=["C18"]),
+    dict(name="bucket_indices", file="pyresample/bucket/__init__.py", func="BucketResampler._get_indices", mode="fragment",
+         params=[("proj_x", RAT), ("proj_y", RAT), ("self.target_area.resolution", tup(RAT, RAT)),
+                 ("self.target_area.area_extent", tup(RAT, RAT, RAT, RAT)), ("self.target_area.width", INT),
+                 ("self.target_area.height", INT), ("self.target_area.shape", tup(INT, INT))],
+         outputs=["self.y_idxs", "self.x_idxs", "self.idxs"],
+         output_types={"self.y_idxs": INT, "self.x_idxs": INT, "self.idxs": INT},
+         select=_from_stmt("adef = self.target_area"), owners=["C07", "C18"]),
     # ---- C10 -----------------------------------------------------------------------------------
     dict(name="area_getitem", file="pyresample/geometry.py", func="AreaDefinition.__getitem__", mode="fragment",
          params=[("yindices", tup(INT, INT, INT)), ("xindices", tup(INT, INT, INT)), ("self.height", INT), ("self.width", INT),
